@@ -322,6 +322,39 @@ def o4_rosomaxa_elite(F, r):
                 r.fail(f"{util.short_fn(m)}:elite=", "elite population replaced after construction", F.loc(m, s["ln"]))
 
 
+def o5_merge_best(F, r):
+    """decomposition merge: the decomposed sub-solution replaces the original part only if it is not worse"""
+    m = F.find1("decompose_search::merge_best")
+    fn = F.fns[m]
+    src = [int(k) for k, v in fn["names"].items() if v == "source_solution"]
+    it = oe.Interp(F, m, {1: oe.sym("decomposed"), 2: oe.ref(oe.sym("orig")), 3: oe.sym("acc")}, fresh=True)
+    n = 0
+    for p in it.explore():
+        cmp_ = [a for a in p.assumptions if len(a) == 3 and a[2] in "LEG"]
+        if not cmp_:
+            r.fail("merge_best", "no comparison of the decomposed and the original partial solution on this path (not decidable)", F.loc(m))
+            continue
+        a, b, o = cmp_[0]
+        chosen = None
+        for l in src:
+            v = oe.strip_refs(p.env.get(l))
+            if v and v[0] == "sym":
+                chosen = v[1]
+        if not src:
+            # fall back: any reference local rooted at a or b whose name is unknown
+            chosen = None
+        n += 1
+        inst = f"merge_best[total_order(decomposed,original)={o}]"
+        if chosen is None:
+            r.fail(inst, "chosen source solution not identifiable (variable renamed: re-confirm)", F.loc(m))
+        elif o == "G" and chosen.startswith(a):
+            r.fail(inst, "the decomposed sub-solution is merged although it is WORSE than the original part: the merged solution can be worse than the parent", F.loc(m))
+        else:
+            r.ok(inst, f"merges {'the decomposed' if chosen.startswith(a) else 'the original'} part")
+    if n < 3:
+        r.fail("merge_best coverage", f"only {n} orderings explored")
+
+
 def _const_ge1(op):
     if not mir.is_const(op):
         return False
@@ -400,5 +433,6 @@ def run(ctx):
     ctx.run("C08-O1", "incumbents are replaced only by no-worse individuals; no-worse individuals pass the elite filter (E-C over all orderings)", o1_incumbent, floor=7)
     ctx.run("C08-O2", "every offered individual reaches the comparison in every HeuristicPopulation::add_all/add impl", o2_every_offer_compared, floor=5)
     ctx.run("C08-O3", "Elitism: additions are followed by sort(total_order(a,b)) before any truncation; max size > 0", o3_elitism_order, floor=3)
+    ctx.run("C08-O5", "decomposition merge never prefers a worse sub-solution (E-C over the three orderings)", o5_merge_best, floor=3)
     ctx.run("C08-S1", "sizes derived from float ratios in population code are clamped to at least one", s1_selection_size_clamped, floor=2)
     ctx.run("C08-O4", "Rosomaxa uses its elite only through add/ranked/select and never replaces it", o4_rosomaxa_elite, floor=4)
